@@ -936,7 +936,7 @@ func run(t *testing.T, r *core.R) {
 		"watch_natural_expiry", "watch_natural_expiry_event", "watcher_fell_behind_compaction", "insync_clean_snapshot_checked",
 		"sync_failed_callback", "parse_failed_callback", "unconvertible_object_written", "emitted_delete_for_unheld_key",
 		"emitted_type_differs_from_downstream_state", "wait_for_datastore_after_insync", "down_deleted_checked", "pool_cidr_conflict",
-		"final_status_insync", "final_status_not_insync", "converged_first_check", "quiesce_needed_long_wait", "stop_emptied_downstream", "stop_left_keys_downstream",
+		"final_status_insync", "final_status_not_insync", "converged_first_check", "quiesce_needed_long_wait", "stop_emptied_downstream", "stop_left_keys_downstream", "stopped_mid_chaos",
 		"resync_notifications")
 	defer func() {
 		if p := recover(); p != nil {
@@ -1071,6 +1071,23 @@ func simulate(r *core.R) {
 			r.Fault("long_time_jump")
 			time.Sleep(31 * time.Minute)
 		}
+	}
+
+	// ---- some runs are stopped in the middle of whatever the chaos phase left behind (a resync in progress, a
+	// cache waiting for the datastore, a list retry timer pending): the shutdown path has to keep the
+	// no-update-while-waiting invariant too
+	if r.Src.Chance(200, "stop_mid_chaos") {
+		synctest.Wait()
+		r.Probe("stopped_mid_chaos")
+		r.Logf("stop in mid-chaos at +%v (last status %v)", time.Since(start).Round(time.Millisecond), s.lastStatus)
+		s.stopping = true
+		for _, ts := range s.types {
+			ts.clean = nil
+		}
+		ws.Stop()
+		r.SimTime(time.Since(start))
+		r.Fingerprint(fmt.Sprintf("stopped-mid-chaos status=%v", s.lastStatus))
+		return
 	}
 
 	// ---- quiesce: faults off, the store stops changing; bounded simulated time to converge
